@@ -1,6 +1,6 @@
 HOOK_COMMITS = []
 _PENDING = "check not built yet in this round (planned, see DESIGN.md section 9); not a statement that the technique cannot apply"
-NOT_APPLICABLE = {p: _PENDING for p in ["C03","C04","C05","C06","C07","C08","C09","C10","C11","C12","C16"]}
+NOT_APPLICABLE = {p: _PENDING for p in ["C04","C05","C06","C07","C08","C09","C10","C11","C12","C16"]}
 TEXT = {
  "C17": {
   "text": "Lean mirror of integer.h / dyadic_rational.h / rational.h; theorems for every modulus m>=2 and every operand state that each "
@@ -98,5 +98,17 @@ TEXT = {
   "design_ref": "5.19",
   "note": "clause (c) is runtime monitoring on generated inputs, not proof (no executable Lean model can exhibit out-of-bounds access); variable_db/variable_order counters are opaque and observed only via sanitizers",
   "technique": "Lean 4 invariant proof (refcount protocol) + correspondence with aliased/pre-used outputs + sanitizer monitoring",
+ },
+ "C03": {
+  "text": "Per-output validation of gcd / lcm / content / primitive part / extended gcd / Bezout by certificate checkers, under all three "
+          "internal gcd strategies (LIBPOLY_VERIF hooks). Proved in Lean: an accepted gcd divides both operands (MvPolynomial Z); the "
+          "dense-list arithmetic over Q is a ring homomorphism into Polynomial Q and an accepted Bezout certificate implies IsCoprime, "
+          "so the univariate coprimality check is sound. Greatestness is decided by (a) the constructed common factor g0 having to "
+          "divide the answer, (b) coprime integer contents of the cofactors, (c) a verified Bezout identity at a specialisation that "
+          "keeps a leading coefficient, for every shared variable; the step from (b)+(c) to 'no common factor' is classical and not "
+          "formalised. Over Z_p: monic gcd, verified Bezout identity of the cofactors, u*p+v*q identities and degree bounds.",
+  "design_ref": "5.3",
+  "note": "validator style; 'inconclusive' certificate searches are accepted on the strength of the known common divisor only and counted in the evidence (model_branches_hit: */common-divisor-only)",
+  "technique": "Lean 4 proved certificate soundness (divisibility, Bezout => coprime) + per-output validation under all gcd strategies",
  },
 }
